@@ -31,9 +31,10 @@ func (node *tagForNode) Execute(ctx *ExecutionContext, writer TemplateWriter) (f
 		First: true,
 	}
 
-	// Is it a loop in a loop?
-	if parentloop != nil {
-		loopInfo.Parentloop = parentloop.(*tagForLoopInformation)
+	// Is it a loop in a loop? (The name could also have been bound to
+	// something else by the template, e. g. {% set forloop = 1 %}.)
+	if parentInfo, isLoop := parentloop.(*tagForLoopInformation); isLoop {
+		loopInfo.Parentloop = parentInfo
 	}
 
 	// Register loopInfo in public context
